@@ -258,6 +258,8 @@ class CallMixin:
             self.assume_wf(gv, st)
             post.ghost[g] = gv
             st.ghost[f"{qual.split('.')[-1]}_{g}"] = gv
+        if res is not None:
+            st.ghost[f"{qual.split('.')[-1]}_result"] = res  # ghost name for the value returned by the latest call of this function
         for text in c.ensures:
             st.assume(to_z3(self.spec_eval(text, post, c)))
         st.alloc = post.alloc
@@ -337,6 +339,11 @@ class CallMixin:
             qual = f"{recv.cls}.{name}"
             if self.resolve(qual):
                 return self.call_named(qual, [recv] + args, kwargs, node, st)
+            if name == "get" and self.classes.get(recv.cls, {}).get("dict_keys") and 1 <= len(args) <= 2 and not kwargs \
+                    and isinstance(args[0], str):
+                # a dict with a fixed set of string keys, modelled as a record (class entry "dict_keys": True - the dict has
+                # exactly the record's field names as keys): d.get(k, default) is d[k] for a key, else the default
+                return recv.fields[args[0]] if args[0] in recv.fields else (args[1] if len(args) > 1 else None)
             raise Unsupported(f"method {qual}")
         if isinstance(recv, VFunc) and recv.kind == "class":
             qual = f"{recv.payload}.{name}"
@@ -557,7 +564,31 @@ class CallMixin:
             # a str method given by an assumed contract of the sidecar (trusted base, listed like any other external)
             self.used_externals.add("str." + name)
             return ext(self, [s] + list(args), {}, node, st)
+        if name in ("ljust", "rjust") and len(args) == 1 and isinstance(args[0], int) and not isinstance(args[0], bool):
+            return self.str_pad(z, args[0], left=(name == "rjust"))
+        if name == "isalpha" and not args and self.str_len_bound(z) == 1:
+            # str.isalpha() of a string of at most one character: False when empty; for an ASCII character exactly the
+            # letters A-Z / a-z; for any other character an uninterpreted predicate of the string (nothing assumed)
+            code = z3.StrToCode(z)
+            ascii_alpha = z3.Or(z3.And(code >= 65, code <= 90), z3.And(code >= 97, code <= 122))
+            other = self.ufun("py_isalpha", z3.StringSort(), z3.BoolSort())(z)
+            return z3.If(z3.Length(z) == 0, z3.BoolVal(False), z3.If(code < 128, ascii_alpha, other))
         raise Unsupported(f"str.{name} at line {getattr(node, 'lineno', '?')}")
+
+    def str_pad(self, z, width, left):
+        """s.rjust(width) (left=True: blanks are added on the left) / s.ljust(width) with the default fill character:
+        s itself when len(s) >= width, else s with width - len(s) blanks added on that side (constant width <= 256)"""
+        if not (0 <= width <= 256):
+            raise Unsupported("ljust/rjust with a width outside 0..256")
+        if isinstance(z, str):
+            return z.rjust(width) if left else z.ljust(width)
+        if z3.is_string_value(z):
+            t = z.as_string()
+            if all(32 <= ord(ch_) < 127 for ch_ in t):
+                return z3.StringVal(t.rjust(width) if left else t.ljust(width))
+        ln = z3.Length(z)
+        blanks = z3.SubString(z3.StringVal(" " * width), 0, width - ln)
+        return z3.If(ln >= width, z, z3.Concat(blanks, z) if left else z3.Concat(z, blanks))
 
     def all_chars_in(self, z, alphabet, nonempty=False):
         if self.str_len_bound(z) == 1:
@@ -703,6 +734,9 @@ class CallMixin:
                 return 0
         if is_str(v):
             return self.ext_int_of_str(v, node, st)
+        if is_real(v) and is_leaf(v) and len(args) == 1:
+            # int(x) of a (finite) real: truncation towards zero (floats are modelled as reals, no nan / inf)
+            return z3.If(v >= 0, z3.ToInt(v), -z3.ToInt(-v))
         raise Unsupported("int() of this value")
 
     def ext_int_of_str(self, v, node, st):
@@ -822,6 +856,8 @@ class CallMixin:
         raise Unsupported("reversed()")
 
     def bi_isinstance(self, args, kw, node, st):
+        if len(args) == 2 and isinstance(args[1], VFunc) and args[1].kind == "builtin" and args[1].payload == "str" and is_str(args[0]):
+            return True  # a value of the engine's string sort is a Python str
         raise Unsupported("isinstance")
 
     def bi_all(self, args, kw, node, st):
